@@ -5,6 +5,7 @@ import Driver.Attr
 import Driver.Msg
 import Driver.Xor
 import Driver.Bld
+import Driver.Agent
 open Driver
 
 def dispatch (l : Line) : Verdict :=
@@ -15,6 +16,7 @@ def dispatch (l : Line) : Verdict :=
   | "msg" => MsgFam.handle l
   | "xor" => XorFam.handle l
   | "bld" => BldFam.handle l
+  | "ag" => AgentFam.handle l
   | f => .bad s!"unknown family {f}" ""
 
 partial def loop (h : IO.FS.Stream) (out : IO.FS.Stream) : IO Unit := do
